@@ -1008,7 +1008,7 @@ def run(ctx):
             "MCTileLockNeg", extra={"MCTileLockNeg.tla": mc_module("MCTileLockNeg", neg)}, cfg_text=MC_CFG % ("Spec", 3, 2, "INVARIANT " + inv_name),
             workers=1, timeout=600, expect_violation=True, count=False)))
     sims = sim_configs()
-    nsim = 80 if quick else 2000
+    nsim = 60 if quick else 2000
     bg.start("sim", lambda: ctx.tlc("MCTileLockSim", extra={"MCTileLockSim.tla": mc_module("MCTileLockSim", [s["cfg"] for s in sims], [EMIT])},
                                     cfg_text=MC_CFG % ("Spec", RP, RU, "INVARIANT Emit\nINVARIANT Mutex\nINVARIANT NoLostUpdate"),
                                     simulate=nsim, depth=400, workers=1, timeout=3000, count=False))
@@ -1073,7 +1073,7 @@ def run(ctx):
             traces.append(("thread-level schedule", tdfs, rec, ["read", "modify"]))
             ctx.count(2)
         ctx.note("dfs_toast_sampler_2x1", {"schedules": truns, "complete": not stack})
-        for k in range(12 if quick else 200):
+        for k in range(9 if quick else 200):
             fmt, mode = [("npy", "f32"), ("fits", "f32"), ("png", "rgba")][k % 3]
             sc = toast_scenario(fmt, mode, 3, k)
             sc["name"] = "rand-" + sc["name"]
@@ -1096,7 +1096,7 @@ def run(ctx):
         ctx.note("stall_holder_schedules", {"runs": nstall, "waiter_polls": 40, "virtual_seconds_per_failed_poll": ">= 1"})
         # 2b random: bigger instances
         rsc = [dict(s, name="rand-" + s["name"]) for s in sims]
-        for k in range(32 if quick else 600):
+        for k in range(24 if quick else 600):
             sc = rsc[k % len(rsc)]
             r2 = __import__("random").Random(ctx.seed * 1000 + k)
             rec, _ = explore_run(sc, ctx.mkdtemp("rnd"), lambda H, allowed, n, r2=r2: r2.randrange(len(allowed)))
